@@ -18,6 +18,7 @@ def run(col, configs, tier):
         guarded(col, S.rule_count_protocol, facts)
         guarded(col, S.rule_count_gating, facts)
         guarded(col, S.rule_window_keeps_count, facts)
+        guarded(col, S.rule_contiguity_consistent, facts)
         guarded(col, S.rule_take_n_twins, facts)
         guarded(col, S.rule_slice_iterators, facts)
         guarded(col, X.rule_slice_contiguity, facts)
